@@ -128,9 +128,8 @@ deriving Repr, BEq, DecidableEq
 def planFor (plans : List Plan) (idx : Nat) : Plan :=
   if plans.length = 0 then {} else plans.getD (if idx ≥ plans.length then plans.length - 1 else idx) {}
 
-/-- `MarshalInitialPacketPayload` advances `initialDatagramIdx` only on the `QUICFrameBuilderEx`
-    path; the pass-through path (nil builder, empty `QUICFrames`) returns before the increment, and
-    `packPlannedInitial` (flight builders) increments itself. -/
+/-- the pass-through path of `MarshalInitialPacketPayload` (nil builder, empty `QUICFrames`): the popped
+    CRYPTO frame is re-emitted as it is -/
 def Builder.passThrough : Builder → Bool
   | .nil => true
   | .frames [] => true
@@ -141,8 +140,10 @@ def Builder.isFlight : Builder → Bool
   | .randFlight _ => true
   | _ => false
 
-/-- the plan index the packer uses for the `i`-th datagram of the first flight -/
-def planIdx (spec : Spec) (i : Nat) : Nat := if spec.builder.passThrough then 0 else i
+/-- the plan index the packer uses for the `i`-th datagram of the first flight: `initialDatagramIdx` is
+    advanced once per datagram on every path of `MarshalInitialPacketPayload` (Ex builders, the pass-through
+    path and plain `Build` since /repo 2233b03) and by `packPlannedInitial` -/
+def planIdx (_spec : Spec) (i : Nat) : Nat := i
 
 def planOf (spec : Spec) (i : Nat) : Plan := planFor spec.plans (planIdx spec i)
 
@@ -154,9 +155,8 @@ def wrap64 (x : Int) : Int := (x + 9223372036854775808) % 18446744073709551616 -
 /-- `InitialPacketSpec.initialPN` -/
 def initialPN (spec : Spec) : Nat := if spec.initPN > maxPN then 0 else spec.initPN
 
-/-- `protocol.PacketNumber(uSpec.InitialPacketSpec.InitPacketNumber)` in u_connection.go: the base that
-    `SetInitialPacketNumberLengths` receives is the raw uint64 reinterpreted as int64, not `initialPN()` -/
-def pnBase (spec : Spec) : Int := wrap64 spec.initPN
+/-- the index base `SetInitialPacketNumberLengths` receives in u_connection.go: `initialPN()` (/repo e2b1c44) -/
+def pnBase (spec : Spec) : Int := (initialPN spec : Nat)
 
 /-- the Initial space uses the sequential generator seeded with `initialPN` -/
 def pnFor (spec : Spec) (i : Nat) : Nat := initialPN spec + i
@@ -184,6 +184,17 @@ def decodePN (pnLen : Nat) (largest truncated : Int) : Int :=
   if candidate ≤ expected - hwin ∧ candidate < 4611686018427387904 - win then candidate + win
   else if candidate > expected + hwin ∧ candidate ≥ win then candidate - win
   else candidate
+
+/-- `InitialPacketSpec.firstPNLen`: entry 0 of the list, else the single override, else the default rule -/
+def firstPNLen (spec : Spec) : Nat :=
+  if spec.pnLens.length > 0 then spec.pnLens.getD 0 0
+  else if spec.pnLen1 ≠ 0 then spec.pnLen1
+  else defaultPnLen (initialPN spec)
+
+/-- `UTransport.dial` (/repo 518b505) returns an error before anything is sent when the first packet number
+    does not fit the encoding length the spec gives the first Initial packet -/
+def dialRejects (spec : Spec) : Bool :=
+  decide (1 ≤ firstPNLen spec ∧ firstPNLen spec ≤ 4 ∧ initialPN spec ≥ 2 ^ (8 * firstPNLen spec))
 
 /-! ### randomness: connection IDs and the synthesised token -/
 
@@ -259,23 +270,33 @@ deriving Repr, BEq, DecidableEq
 def exactFill (plan : Plan) (hdrLen payloadLen : Nat) : Nat :=
   if plan.packetSize > 0 then plan.packetSize - (hdrLen + payloadLen + tagLen) else 0
 
-/-- the datagram size after the UDP minimum padding -/
-def datagramLenOf (plan : Plan) (udpMin packetLen : Nat) : Nat :=
+/-- minimum-payload PADDING (/repo b853626, RFC 9001 §5.4.2): packet number + payload are at least 4 bytes -/
+def samplePad (pnLen payloadLen : Nat) : Nat :=
+  if pnLen + payloadLen < 4 then 4 - pnLen - payloadLen else 0
+
+/-- the datagram size after the UDP minimum padding, which never goes beyond the packet buffer
+    (/repo aedbf0e: `minUDPSize` is capped at `cap(buffer.Data)`) -/
+def datagramLenOf (plan : Plan) (udpMin bufCap packetLen : Nat) : Nat :=
   if plan.packetSize = 0 then
     let m := if udpMin = 0 then defaultUDPMin else udpMin
+    let m := if m > bufCap then bufCap else m
     if packetLen < m then m else packetLen
   else packetLen
 
+/-- all PADDING `appendInitialPacketPayload` adds inside the AEAD: exact-size fill, then the sample minimum -/
+def innerPad (plan : Plan) (hdrLen pnLen payloadLen : Nat) : Nat :=
+  exactFill plan hdrLen payloadLen + samplePad pnLen (payloadLen + exactFill plan hdrLen payloadLen)
+
 /-- `appendInitialPacketPayload`: header `h`, frame payload `uPayload` from the builder, the plan of this
-    datagram, the spec's UDP minimum and the free capacity of the packet buffer -/
+    datagram, the spec's UDP minimum and the capacity of the packet buffer -/
 def assemble (h : Hdr) (uPayload : List Nat) (plan : Plan) (udpMin bufCap : Nat) : Except Err Out :=
-  let payload := uPayload ++ List.replicate (exactFill plan h.len uPayload.length) 0
+  let payload := uPayload ++ List.replicate (innerPad plan h.len h.pnLen uPayload.length) 0
   let lengthField := h.pnLen + tagLen + payload.length
   let packetLen := h.len + payload.length + tagLen
   if packetLen > bufCap then .error .nofit
   else if h.pnLen < 1 ∨ h.pnLen > 4 then .error .badPnLen
   else .ok { plain := h.bytes lengthField ++ payload, payloadLen := payload.length, lengthField := lengthField,
-             packetLen := packetLen, datagramLen := datagramLenOf plan udpMin packetLen }
+             packetLen := packetLen, datagramLen := datagramLenOf plan udpMin bufCap packetLen }
 
 /-! ### how much CRYPTO data the packer pops for a datagram (non-flight builders) -/
 
